@@ -585,6 +585,14 @@ class VLoop(asyncio.BaseEventLoop):
         self.jobs.clear()
         if not self.is_closed():
             self._closed = True
+        # A finished world is one big reference cycle (futures -> tracebacks -> frames -> loop) that needs
+        # two full collections to go away; left to the generational heuristics a long enumeration grows by
+        # ~60 kB per execution (a thorough run reached 6 GB per worker).  Collect explicitly now and then.
+        VLoop._shutdowns += 1
+        if VLoop._shutdowns % 64 == 0:
+            gc.collect()
+
+    _shutdowns = 0
 
     def unretrieved(self):
         """exception-handler log after forcing GC (exception never retrieved)"""
